@@ -865,7 +865,11 @@ func (o *ovsdbClient) transact(ctx context.Context, dbName string, skipChWrite b
 // MonitorAll is a convenience method to monitor every table/column
 func (o *ovsdbClient) MonitorAll(ctx context.Context) (MonitorCookie, error) {
 	m := newMonitor()
-	for name := range o.primaryDB().model.Types() {
+	db := o.primaryDB()
+	db.modelMutex.RLock()
+	types := db.model.Types()
+	db.modelMutex.RUnlock()
+	for name := range types {
 		m.Tables = append(m.Tables, TableMonitor{Table: name})
 	}
 	return o.Monitor(ctx, m)
